@@ -776,6 +776,26 @@ func c10Cases(quick bool) []EnumCase {
 	return out
 }
 
+// oracleC10DbRoles: once the node has left the leader role every database it has, also one created while the
+// role changed, carries a non-leader role (a database that still thinks it leads grants, queues, releases and
+// expires on its own).
+func oracleC10DbRoles(r *EngRun) []explore.Violation {
+	p := r.Probes["dbstatuses"]
+	if p == "" {
+		return nil
+	}
+	f := strings.Fields(p)
+	if f[0] == "node=1" {
+		return nil
+	}
+	for _, x := range f[1:] {
+		if strings.HasSuffix(x, ":1") {
+			return []explore.Violation{{Sig: "C10:database-keeps-leader-role-after-step-down", Msg: fmt.Sprintf("after the step-down (%s) database %s still has the leader role: it answers client requests on its own", f[0], strings.TrimSuffix(x, ":1"))}}
+		}
+	}
+	return nil
+}
+
 func btoi(b bool) int {
 	if b {
 		return 1
@@ -797,8 +817,11 @@ func init() {
 				{Name: "lock-vs-step-down", Cfg: cfg, Fine: true, Threads: [][]Step{{C(L(1, 1, 1, 0, 10, 0, 0))}, {down}}},
 				{Name: "relock-vs-step-down", Cfg: cfg, Fine: true, Setup: []Step{C(L(9, 1, 1, 0, 10, 0, 2))}, Threads: [][]Step{{C(L(1, 1, 1, 0, 10, 0, 2))}, {down}}},
 				{Name: "two-locks-two-shards-vs-step-down", Cfg: cfg2, Fine: true, Threads: [][]Step{{C(L(1, 1, 1, 0, 10, 0, 0))}, {C(L(2, 2, 2, 0, 10, 0, 0))}, {down}}},
+				// the FIRST request for a database (the database object is built for it) races the step-down
+				{Name: "first-use-of-database-vs-step-down", Cfg: cfg, Fine: true, Probes: []string{"dbstatuses"},
+					Threads: [][]Step{{C(hapi.Cmd{Type: 1, Req: 1, DB: 7, Key: 1, Id: 1, Expried: 10})}, {down}}},
 				{Name: "unlock-wakes-waiter-vs-step-down", Cfg: cfg, Fine: true, Setup: []Step{C(L(9, 1, 1, 0, 10, 0, 0)), C(L(8, 1, 2, 9, 10, 0, 0))}, Threads: [][]Step{{C(U(1, 1, 1))}, {down}}},
-			}, Monitors: []MonitorFactory{MonitorC10}, Bound: func(s *EngSpec, q bool) int {
+			}, Monitors: []MonitorFactory{MonitorC10}, Oracles: []Oracle{oracleC10DbRoles}, Bound: func(s *EngSpec, q bool) int {
 				if q || len(s.Threads) > 2 {
 					return 2
 				}
